@@ -52,7 +52,7 @@ logging.getLogger("asyncio").setLevel(logging.CRITICAL)
 ID = "C17"
 DRIVER = "drv_c17"
 PROPS = ["Ptk.Props.C17", "Ptk.Props.C17Buf", "Ptk.Props.C17Flush", "Ptk.Props.C17Paste", "Ptk.Props.C17PasteApp",
-         "Ptk.Props.C17Store"]
+         "Ptk.Props.C17Store", "Ptk.Props.C17Attach"]
 ANCHORS = ["src/prompt_toolkit/application/application.py", "src/prompt_toolkit/key_binding/key_processor.py",
            "src/prompt_toolkit/input/typeahead.py", "src/prompt_toolkit/input/vt100.py",
            "src/prompt_toolkit/key_binding/bindings/cpr.py", "src/prompt_toolkit/input/vt100_parser.py",
@@ -74,7 +74,7 @@ MODELLED = {
         "KeyProcessor.empty_queue", "KeyProcessor._start_timeout.wait", "KeyProcessor._start_timeout.flush_keys",
     ],
     "src/prompt_toolkit/input/typeahead.py": ["store_typeahead", "get_typeahead"],
-    "src/prompt_toolkit/input/vt100.py": ["Vt100Input.read_keys"],
+    "src/prompt_toolkit/input/vt100.py": ["Vt100Input.read_keys", "_attached_input"],
     "src/prompt_toolkit/input/vt100_parser.py": [
         "Vt100Parser.feed", "Vt100Parser._call_handler", "Vt100Parser._input_parser_generator",
         "Vt100Parser._get_match", "_IsPrefixOfLongerMatchCache.__missing__",
@@ -92,7 +92,7 @@ MODELLED = {
     "src/prompt_toolkit/buffer.py": ["Buffer.validate", "Buffer.validate_and_handle"],
     "src/prompt_toolkit/validation.py": ["_ValidatorFromCallable.validate"],
 }
-LEVEL_TEXT = ("Lean 4 theorems over five executable models around the accept boundary, for EVERY schedule of writes / reads "
+LEVEL_TEXT = ("Lean 4 theorems over six executable models around the accept boundary, for EVERY schedule of writes / reads "
               "of any size / starts / timer expiries / finishes and every CPR placement. Layer 1 (process_keys with "
               "the is_done gate, c-j re-feed, run_async type-ahead replay / read guard / CPR wait of the exit path / "
               "store_typeahead): no key "
@@ -115,12 +115,17 @@ LEVEL_TEXT = ("Lean 4 theorems over five executable models around the accept bou
               "sequence, paste mode) survives the accept boundary; side conditions re-decided on the sequence table "
               "regenerated from /repo. Layer 5 (type-ahead store as a map keyed by typeahead_hash(), several inputs): "
               "FIFO append per hash, isolation between hashes, every input runs the one-input machine under every "
-              "interleaving (all layer-1 theorems per input). The models are "
+              "interleaving (all layer-1 theorems per input). Layer 6 (the reader callback's life cycle on one event "
+              "loop: _attached_input attach/detach with the previous callback, the guard of read_from_input, the "
+              "renderer's memory of seen CPR responses and unanswered requests from prompt to prompt, loop turns as "
+              "schedule steps): between two prompts no reader of a finished run is registered, a loop turn in the gap "
+              "reads nothing, conservation over the gaps (nothing is eaten by a stale callback). The models are "
               "tied to /repo on every run by generated tables and pins, a step-by-step correspondence on explicit "
               "schedules (also on a virtual clock with chunk boundaries inside escape sequences; byte-exact read sizes "
               "for the parser layer incl. the 1024-byte read boundary; two inputs in one event loop), an end-to-end "
               "correspondence (k prompts on one pipe: pre-fed, writer thread, writer task, byte-level chunking, "
-              "in_thread) and the property oracle")
+              "in_thread; k prompt_async() calls on ONE loop with a non-answering vt100 output, a CPR seen on the input and "
+              "writes strictly between prompts) and the property oracle")
 LEVEL_NOTE = ("PARTIAL: read boundaries, finish points and timer expiry are nondeterministic inputs of the models "
               "(the theorems quantify over all of them); the OS pipe, asyncio scheduling, the UTF-8 decoder and the "
               "escape-sequence grammar of the normal-mode generator (C03; a parameter of layer 4, its concrete copy is "
@@ -140,7 +145,10 @@ RULE = ("step cases: every script over {a, Enter, CPR, c-j} up to the tier's len
         "per input; e2e cases: seeded scripts of 1-5 lines in modes pre / thread (key-boundary chunks) / threadbytes "
         "(arbitrary byte cuts) / async (writer task) / in_thread, CPRs injected at key boundaries, pastes with cuts "
         "mostly inside the marks. non-trivial = at least two prompts, or a key after an accepting key, or a CPR, or "
-        "a paste")
+        "a paste; one-loop layer: 5 scripts (CPR report in line 1 / 2 / nowhere / twice) x 4 gap patterns (write + loop "
+        "turn between prompts, half a line in the gap, the loop does all reading, type-ahead), random schedules with "
+        "loop turns anywhere, e2e with each line written in the gap before its prompt incl. a line longer than two "
+        "reads")
 EXHAUSTIVE = True
 EXHAUSTIVE_SCOPE = {
     "quick": "virtual clock: bursts 'a' | 'b'+first part of Left/Delete | rest+'X Enter cd Enter' for every split position "
@@ -206,6 +214,10 @@ PARTIAL_SCOPE = ["the input flush timer (flush_input / ttimeoutlen) is the third
                  "ENTER' prompt reads the input): handler code that raises is outside the property's quantifier; "
                  "run_in_terminal / suspend, Application.exit() from a background task, erase_when_done, pre_run "
                  "callables that feed keys, accept_default are not modelled",
+                 "layer 6: one application at a time per input (the `previous` callback of nested attaches is "
+                 "modelled but nesting is never generated); what a stale callback would do with the keys it reads is "
+                 "abstracted to a `lost` ledger (proved empty); the CPR_TIMEOUT timer that turns UNKNOWN into "
+                 "NOT_SUPPORTED is not modelled",
                  "OS pipe, thread and event-loop scheduling: sampled by the e2e cases, not proved"]
 
 BASE = 0x110000
@@ -361,6 +373,12 @@ def make_session(inp, case, **kw):
         os.environ.pop("PROMPT_TOOLKIT_NO_CPR", None)
         out = Vt100_Output(FakeTty(), lambda: Size(rows=40, columns=80), term="xterm")
         assert out.responds_to_cpr
+    elif case.get("out") == "cprseen":
+        # a vt100 output that is NOT a tty: it never answers a cursor-position request, the renderer
+        # starts with cpr_support = NOT_SUPPORTED; a CPR report on the INPUT flips that to SUPPORTED and
+        # from then on every start sends a request that stays unanswered (also after the run)
+        out = Vt100_Output(io.StringIO(), lambda: Size(rows=40, columns=80), term="xterm")
+        assert not out.responds_to_cpr
     else:
         out = DummyOutput()
     if case.get("val"):
@@ -472,6 +490,7 @@ async def _step_async(case) -> _Run:
         inp.stdin_reader.read = limited_read
         layer_b = case.get("layer") == "B"
         layer_p = case.get("layer") == "P"
+        layer_a = case.get("layer") == "A"
         if layer_b:
             # the `timeoutlen` timer fires only inside a T event (which sleeps); nothing else sleeps
             app.timeoutlen = 0.001
@@ -517,6 +536,14 @@ async def _step_async(case) -> _Run:
                 pre = fr.f_locals.get("prefix", "") if fr is not None else "?"
                 pz = (f" pm={int(inpaste)} pb={enc_str(vp._paste_buffer) if inpaste else '-'} "
                       f"pre={enc_str(pre)}")
+            if layer_a:
+                from prompt_toolkit.renderer import CPR_Support
+                try:
+                    rh = loop._selector.get_key(fd).data[0]
+                    rd = rh is not None and not rh._cancelled
+                except (KeyError, ValueError):
+                    rd = False
+                pz = (f" rd={int(rd)} cs={int(app.renderer.cpr_support == CPR_Support.SUPPORTED)} lost=0")
             run.lines.append(f"run={int(running)} {exw}done={done_kind()} buf={buf} {kb}q={enc_keys(q)} "
                              f"ta={enc_keys(ta)} res={enc_res(run.results)}{pz}")
             if app.is_done and app.key_processor.key_buffer:
@@ -602,11 +629,18 @@ async def _step_async(case) -> _Run:
                     last_cb = _vt100._current_callbacks.get((loop, fd)) or last_cb
                     if not app._is_running:         # result was already set by the type-ahead
                         await collect()
+            elif op == "L":
+                # the event loop turns: IT calls the readers it has registered (nobody else does); an
+                # application whose result is set runs to its end
+                for _ in range(6):
+                    await asyncio.sleep(0)
+                if task is not None and (task.done() or app.is_done or not app._is_running):
+                    await collect()
             elif op == "R":
                 n = ev[1]
                 nbytes = sum(b for _, b in pipe_toks[:n])
                 limit[0] = max(1, min(1024, nbytes)) if n < len(pipe_toks) else 1024
-                cb = _vt100._current_callbacks.get((loop, fd)) or last_cb
+                cb = _vt100._current_callbacks.get((loop, fd)) or (None if layer_a else last_cb)
                 if cb is not None:
                     try:
                         cb()
@@ -759,6 +793,34 @@ def _e2e_sync(case) -> _Run:
                 time.sleep(pd / 1000.0)
         if writer is not None:
             writer.join(watchdog_s(case) * 2)
+        run.leftover = [c for c in (kp_code(x) for x in _drain(inp)) if c != -3]
+    return run
+
+
+async def _e2e_gap(case) -> _Run:
+    """k `prompt_async()` calls on ONE event loop; chunk i is written strictly BETWEEN prompt i-1 and
+    prompt i (after the former returned, before the latter starts), and the loop turns in between"""
+    run = _Run()
+    k = case["k"]
+    with create_pipe_input() as inp:
+        session = make_session(inp, case, interrupt_exception=Abort, eof_exception=Eof)
+        for i in range(k):
+            if i < len(case["gapchunks"]):
+                inp.send_bytes(b"".join(tok_bytes(t) for t in case["gapchunks"][i]))
+            for _ in range(4):
+                await asyncio.sleep(0)
+            await asyncio.sleep(case.get("gapsleep", 0) / 1000.0)
+            try:
+                r = await asyncio.wait_for(session.prompt_async(), watchdog_s(case))
+                run.results.append((-1, r))
+            except Abort:
+                run.results.append((-2, session.default_buffer.text))
+            except Eof:
+                run.results.append((-5, session.default_buffer.text))
+            except asyncio.TimeoutError:
+                run.results.append((-9, "TIMEOUT"))
+            except BaseException as e:  # noqa
+                run.results.append((-9, "EXC:" + type(e).__name__))
         run.leftover = [c for c in (kp_code(x) for x in _drain(inp)) if c != -3]
     return run
 
@@ -981,6 +1043,8 @@ def real_run(case) -> _Run:
         run = _new_loop_run(_step_multi_async(case))
     elif case["kind"] == "step":
         run = _new_loop_run(_step_async(case), vclock=bool(case.get("vclock")))
+    elif case["mode"] == "gap":
+        run = _new_loop_run(_e2e_gap(case))
     elif case["mode"] in ("async", "cprwait", "asyncbytes"):
         run = _new_loop_run(_e2e_async(case))
     else:
@@ -1031,7 +1095,24 @@ def model_lines_m(case):
     return out
 
 
+def model_lines_a(case):
+    out = [f"Linit {case['k']} {int(case.get('out') == 'cpr')}"]
+    for ev in case["events"]:
+        if ev[0] == "W":
+            out.append("LW " + enc_keys(c for t in ev[1] for c in tok_codes(t)))
+        elif ev[0] == "R":
+            out.append(f"LR {ev[1]}")
+        elif ev[0] == "L":
+            out.append("LT")
+        else:
+            out.append("L" + ev[0])
+    out.append("LEND")
+    return out
+
+
 def model_lines(case):
+    if case.get("layer") == "A" and case["kind"] == "step":
+        return model_lines_a(case)
     if case.get("layer") == "P":
         return model_lines_p(case)
     if case.get("layer") == "M":
@@ -1131,7 +1212,7 @@ def impl_lines(case):
         return run.lines
     final = f"run=0 res={enc_res(run.results)} left={enc_keys(run.leftover)}"
     if case["kind"] == "step":
-        return run.lines + [_step_final(case, run)]
+        return run.lines + [_step_final(case, run) + (" lost=0" if case.get("layer") == "A" else "")]
     return [final]
 
 
@@ -2058,6 +2139,98 @@ def cases_v(tier, rng):
         yield mk_e2e_b(rng, ["pre", "thread", "async"][i % 3], units, val)
 
 
+# ---- sixth layer: the reader's life cycle on ONE event loop, writes in the gaps between prompts
+def completion_a(k):
+    ev = []
+    for _ in range(k + 1):
+        ev += [["S"], ["R", 100000], ["L"], ["F"]]
+    return ev
+
+
+def mk_step_a(events, k, out="cprseen"):
+    return {"kind": "step", "layer": "A", "out": out, "k": k, "events": events + completion_a(k), "complete": True}
+
+
+def gap_events(lines, how):
+    """line i is written in the gap before prompt i; `how` says what happens in the gap / in the run"""
+    ev = []
+    for i, ln in enumerate(lines):
+        if how == "gapturn":        # write, the loop turns with nothing running, then the prompt
+            ev += [["W", ln], ["L"], ["S"], ["R", 100000], ["F"]]
+        elif how == "gapturn2":     # half of the line in the gap, the rest while the prompt runs; the LOOP reads
+            h = max(1, len(ln) // 2)
+            ev += [["W", ln[:h]], ["L"], ["S"], ["W", ln[h:]], ["L"]]
+        elif how == "loopreads":    # the prompt is running, the loop does all the reading and the finishing
+            ev += [["S"], ["W", ln], ["L"]]
+        elif how == "ahead":        # line i and i+1 before prompt i (type-ahead), turns everywhere
+            nxt = lines[i + 1] if i + 1 < len(lines) and i % 2 == 0 else []
+            if i % 2 == 0:
+                ev += [["W", ln + nxt], ["L"], ["S"], ["L"], ["L"]]
+            else:
+                ev += [["L"], ["S"], ["L"]]
+    return ev
+
+
+def mk_e2e_gap(rng, lines, sleep_ms=0):
+    toks = [t for ln in lines for t in ln]
+    k = fins(toks)
+    case = {"kind": "e2e", "layer": "A", "out": "cprseen", "mode": "gap", "k": k, "script": toks,
+            "gapchunks": [list(ln) for ln in lines], "gapsleep": sleep_ms, "cuts": []}
+    case["msched"] = [["W", toks]] + completion(k)
+    return case
+
+
+def cases_a(tier, rng):
+    quick = tier == "quick"
+    cpr = "CPR:1;1"
+    # where the CPR report is (or is not) decides whether the renderer keeps unanswered requests
+    scripts = [[[cpr, "a", "ENTER"], ["b", "ENTER"], ["c", "d", "ENTER"]],
+               [["a", cpr, "ENTER"], ["b", "ENTER"], ["c", "ENTER"], ["d", "CC"]],
+               [["a", "ENTER"], [cpr, "b", "ENTER"], ["c", "ENTER"], ["d", "ENTER"]],
+               [["a", "ENTER"], ["b", "ENTER"], ["c", "ENTER"]],
+               [[cpr, cpr, "ENTER"], ["ENTER"], ["x", "BS", "y", "ENTER"], ["z", "ENTER"]]]
+    for lines in scripts:
+        k = fins([t for ln in lines for t in ln])
+        for how in ("gapturn", "gapturn2", "loopreads", "ahead"):
+            yield mk_step_a(gap_events(lines, how), k)
+        yield mk_e2e_gap(rng, lines)
+        yield mk_e2e_gap(rng, lines, sleep_ms=3)
+    # a long line in the gap: more than one 1024-byte read (the witness of seeded/C17-j)
+    long_line = [rng.choice("abcdefgh") for _ in range(2500 if quick else 8000)] + ["ENTER"]
+    yield mk_e2e_gap(rng, [[cpr, "o", "n", "e", "ENTER"], ["t", "w", "o", "ENTER"] + long_line])
+    yield mk_e2e_gap(rng, [[cpr, "o", "ENTER"], ["t", "ENTER"], long_line])
+    # seeded random: scripts with CPR reports, random events incl. loop turns in and between runs
+    for _ in range(40 if quick else 800):
+        nl = rng.choice([2, 3, 3, 4])
+        toks = inject_cpr(rng, rand_script(rng, nl, rich=False, tail=False), p=rng.choice([0.1, 0.2, 0.3]))
+        k = fins(toks)
+        ev, i = [], 0
+        while i < len(toks):
+            r = rng.random()
+            if r < 0.35:
+                n = rng.choice([1, 2, 3, 5, len(toks)])
+                ev.append(["W", toks[i:i + n]])
+                i += n
+            elif r < 0.5:
+                ev.append(["R", rng.choice([1, 2, 100000])])
+            elif r < 0.7:
+                ev.append(["L"])
+            elif r < 0.87:
+                ev.append(["S"])
+            else:
+                ev.append(["F"])
+        yield mk_step_a(ev, k)
+    for _ in range(10 if quick else 200):
+        nl = rng.choice([2, 3, 4])
+        lines = []
+        for j in range(nl):
+            ln = [rng.choice("abcxyz") for _ in range(rng.choice([0, 1, 3, 6]))]
+            if rng.random() < (0.8 if j == 0 else 0.2):
+                ln.insert(rng.randrange(len(ln) + 1), cpr)
+            lines.append(ln + [rng.choice(["ENTER", "ENTER", "ENTER", "CC"])])
+        yield mk_e2e_gap(rng, lines, sleep_ms=rng.choice([0, 0, 2]))
+
+
 def rand_script(rng, nlines, rich=True, tail=None):
     chars = "abcxyz01 -_" + ("éß世✓" if rich else "")
     edits = ["BS", "DEL", "LEFT", "LEFT2", "RIGHT", "HOME", "END", "CK", "CU", "CA", "CE", "CB", "CF"]
@@ -2175,6 +2348,8 @@ def cases(tier, rng):
     yield from cases_m(tier, rng)
     # ---- second layer: validators that reject, c-d
     yield from cases_v(tier, rng)
+    # ---- sixth layer: one event loop, writes between prompts, a CPR seen and then unanswered requests
+    yield from cases_a(tier, rng)
     # ---- random step cases
     nstep = 120 if quick else 1500
     for _ in range(nstep):
@@ -2339,6 +2514,8 @@ def distribution(cases_):
             key += ":paste"
         if c.get("layer") == "M":
             key += ":two-inputs"
+        if c.get("layer") == "A":
+            key += ":one-loop-gaps"
         if c.get("out") == "cpr":
             key += ":cpr-output"
         if c.get("vclock"):
